@@ -34,3 +34,19 @@ package timesafeguard
 //@     invariant sup: forall j int :: 0 <= j && j <= rangeindex && !results[j].Result.IsZero() ==> (exists m int :: 0 <= m && m < len(nonZeroResults) && nonZeroResults[m] == results[j])
 //@   loop range nonZeroResults
 //@     invariant 0 - 1 <= rangeindex
+
+// collectTime hands back one slot per server, filled in or zero, whether or
+// not some server could not be reached: callers log the error and evaluate
+// the slots of the peers that did answer (an unreachable peer is ignored, it
+// must not hide the others). The measuring goroutines are not followed.
+//@ func collectTime
+//@   ensures allslots: len(result0) == len(servers)
+//@   ensures fresh: len(servers) > 0 ==> fresh(result0)
+
+// Every collected slot (and, when joining, the measurement of the node being joined) is evaluated.
+//@ func SynchronizedWithNetwork
+//@   ensures refuses: result != nil ==> !*DisableTimesafeguard
+//@   assert@call synchronizedWithNetwork#0 : allpeers: len(callarg0) == len(collectPeers)
+//@ func SynchronizedWithMasterAndNetwork
+//@   ensures refuses: result != nil ==> !*DisableTimesafeguard
+//@   assert@call synchronizedWithNetwork#0 : allpeers: len(callarg0) == len(peers) + 1 && callarg0[len(peers)] == result
